@@ -401,23 +401,45 @@ def check_pq_and_edges(ck, fn, tag, is_partition):
     pqs = [x for x in fn.nodes() if x["k"] == "VarDecl" and x.get("ty", "").startswith("std::priority_queue<")]
     ck.require(len(pqs) == 2, "%s: two priority queues expected" % fn.loc)
     bad = 0
+    g = cfgm.CFG(fn)
+    L = linear.Lin(fn, g)
+    skews = [v for v in fn.nodes() if v["k"] == "VarDecl" and v.get("name") == "skew"]
+    ck.require(len(skews) == 1, "%s: skew variable not found" % fn.loc)
+    skew_ref = {"k": "DeclRefExpr", "id": -21, "ref": {"id": skews[0]["did"], "name": "skew", "kind": "local"}, "ty": skews[0].get("ty")}
+    zero = {"k": "IntegerLiteral", "id": -22, "val": 0, "ty": "int"}
+    need = {"gt": L.req(skew_ref, zero, True), "ge": L.req(skew_ref, zero, False), "lt": L.req(zero, skew_ref, True), "le": L.req(zero, skew_ref, False)}
+
+    def writes_skew(n):
+        d_, ip_ = writes_to(n)
+        return "kill" if d_ == skews[0]["did"] else None
+
+    def ne_edge(c, t):
+        c0 = strip_casts(c)
+        while c0 is not None and (c0["k"] == "ParenExpr" or (c0["k"] == "UnaryOperator" and c0.get("op") == "!")):
+            if c0["k"] == "UnaryOperator":
+                t = not t
+            c0 = strip_casts(kids(c0)[0])
+        b_ = match.binop(c0, ("==", "!="))
+        if b_ and ((ref_of(b_[1]) == skews[0]["did"] and const_int(b_[2]) == 0) or (ref_of(b_[2]) == skews[0]["did"] and const_int(b_[1]) == 0)):
+            return (b_[0] == "!=") == t
+        return any(linear.implies(a_, need["gt"]) or linear.implies(a_, need["lt"]) for a_ in L.implied(c, t))
+    facts = {k_: mustfact.MustFact(fn, g, lambda c, t, k_=k_: any(linear.implies(a_, need[k_]) for a_ in L.implied(c, t)), writes_skew) for k_ in need}
+    facts["ne"] = mustfact.MustFact(fn, g, ne_edge, writes_skew)
     for pq in pqs:
-        par = fn.parent(pq)
-        skew_pos = None
-        n = pq
-        while par is not None:
-            if par["k"] == "IfStmt":
-                c = match.binop(kids(par)[0], (">", "<"))
-                if c and ir.ref_name(c[1]) == "skew" and const_int(c[2]) == 0:
-                    in_then = any(y is n for y in ir.walk(kids(par)[1]))
-                    if in_then:
-                        skew_pos = c[0] == ">"
-                        break
-            n, par = par, fn.parent(par)
+        at = lambda k_: facts[k_].before(pq) is True
+        if at("gt") or (at("ge") and at("ne")):
+            skew_pos = True
+        elif at("lt") or (at("le") and at("ne")):
+            skew_pos = False
+        else:
+            skew_pos = None
         ck.require(skew_pos is not None, "%s: priority queue outside the skew correction" % fn.loc)
+        par = fn.parent(pq)
+        while par is not None and par["k"] != "CompoundStmt":
+            par = fn.parent(par)
+        block_body = par
         rev = "lexicographic_rev<" in pq["ty"]
-        block = par
-        pushes = [y for y in ir.walk(kids(block)[1]) if "callee" in y and y["callee"]["name"] == "push" and ref_of(kids(y)[0]) == pq["did"]]
+        pushes = [y for y in ir.walk(block_body) if "callee" in y and y["callee"]["name"] == "push" and ref_of(kids(y)[0]) == pq["did"]]
         src = set()
         for y in pushes:
             for z in ir.walk(y):
